@@ -2,3 +2,4 @@ import BufrProofs.Bits
 import BufrProofs.Expand
 import BufrProofs.Ops
 import BufrProofs.Ieee
+import BufrProofs.Tables
